@@ -3,6 +3,8 @@
 #[verifier::accept_recursive_types(T)]
 pub struct ExPoll<T>(std::task::Poll<T>);
 
+global size_of usize == 8;
+
 pub mod ax {
     use vstd::prelude::*;
     /// `Default::default()` as a specification value.
